@@ -21,42 +21,55 @@ def files_arg(w, files):
     return files
 
 
+LABEL_71_START = 'range.start is not the smallest key of the files'
+LABEL_71_END = 'range.end is not one of the files\' largest keys carrying the largest user key (compaction input selection misses overlapping files)'
+
+
 def o7_1_key_range(mir, tier):
-    """get_key_range_for_files returns the hull (smallest of the smallest keys .. largest of the largest keys)."""
-    fn = mir.method('FileMetadata', 'get_key_range_for_files')
+    """get_key_range_for_files (1..3 (4) files) and get_key_range_for_multiple_levels (two lists of 1..2 files, the second possibly empty):
+    the start is the smallest of the smallest keys (it becomes the compaction pointer); the end is one of the files' largest keys and
+    carries the largest user key - callers (`get_overlapping_compaction_inputs`) consult the user keys of the range only.  (Until the
+    repair of D4 the end was the SMALLEST of the largest keys.  The earlier oracle asked for the largest INTERNAL key; among bounds with
+    the same user key that is more than any caller or property needs, and the existing unit test pins the first such bound.)"""
+    fn = mir.method('FileMetadata', 'get_key_range_for_files'); fn2 = mir.method('FileMetadata', 'get_key_range_for_multiple_levels')
     N = 4 if tier == 'thorough' else 3
-    res = Result('O7.1 get_key_range_for_files', [fn.path, 'InternalKey::cmp/partial_cmp (inlined)'], 'files 1..%d, abstract 16-bit user keys, free 64-bit sequence numbers' % N)
+    res = Result('O7.1 get_key_range_for_files / get_key_range_for_multiple_levels', [fn.path, fn2.path, 'InternalKey::cmp/partial_cmp (inlined)'],
+                 'one list of 1..%d files; two lists of (1..2, 0..2) files; abstract 16-bit user keys, free 64-bit sequence numbers' % N)
     t0 = time.time()
-    for n in range(1, N + 1):
+    shapes = [((n,), fn) for n in range(1, N + 1)] + [((a, b), fn2) for a in (1, 2) for b in (0, 1, 2)]
+    for shape, f_ in shapes:
         w = World(mir)
-        files = [w.file('f%d' % i, number=i + 1) for i in range(n)]
+        lists = []; num = 1
+        for li, cnt in enumerate(shape):
+            lists.append([w.file('f%d_%d' % (li, i), number=num + i) for i in range(cnt)]); num += cnt
+        files = [x for l in lists for x in l]
         F = [w.F(f) for f in files]
         pre = list(w.pre) + [kle(f['sm'], f['lg']) for f in F]
-        ex = Exec(mir, base_summaries(mir), loop_bound=n + 2)
-        seen = {'start_bad': False, 'end_bad': False}
-        def k(ret, env, pc, F=F, n=n, ex=ex):
+        ex = Exec(mir, base_summaries(mir), loop_bound=len(files) + 3)
+        def k(ret, env, pc, F=F, shape=shape, ex=ex, f_=f_):
             start, end = w.K(ret[0]), w.K(ret[1])
             post_s = And(*[kle(start, f['sm']) for f in F], Or(*[same_key(start, f['sm']) for f in F]))
-            post_e = And(*[kle(f['lg'], end) for f in F], Or(*[same_key(end, f['lg']) for f in F]))
-            for label, post in (('range.start is not the smallest key of the files', post_s), ('range.end is not the largest key of the files', post_e)):
-                ex.record_formula('%s n=%d' % (label, n), pc, Not(post))
+            post_e = And(*[ULE(f['lg'][0], end[0]) for f in F], Or(*[same_key(end, f['lg']) for f in F]))
+            for label, post in ((LABEL_71_START, post_s), (LABEL_71_END, post_e)):
+                ex.record_formula('%s shape=%s' % (label, shape), pc, Not(post))
                 m = ex.model(Not(post))
                 if m is not None:
                     vals = [[mval(m, x) for x in (f['sm'][0], f['sm'][1], f['lg'][0], f['lg'][1])] for f in F]
-                    res.violations.append({'label': label, 'n': n, 'files': vals,
+                    res.violations.append({'label': label, 'shape': list(shape), 'files': vals,
                                            'replay': ['key_range'] + ['%s:%d:%s:%d' % (key_bytes(v[0]), v[1], key_bytes(v[2]), v[3]) for v in vals]})
-            if len(res.witnesses) < 3:
+            res.cases['lists of %s files' % (shape,)] = res.cases.get('lists of %s files' % (shape,), 0) + 1
+            if len(res.witnesses) < 3 and f_ is fn:
                 m = ex.model()
                 if m is not None:
                     vals = [[mval(m, x) for x in (f['sm'][0], f['sm'][1], f['lg'][0], f['lg'][1])] for f in F]
                     res.witnesses.append({'files': vals, 'executor_result': [mval(m, x) for x in (start[0], start[1], end[0], end[1])],
                                           'replay': ['key_range'] + ['%s:%d:%s:%d' % (key_bytes(v[0]), v[1], key_bytes(v[2]), v[3]) for v in vals]})
-        env = {'$state': {}, '$files': files}
-        ex.top(fn, [Ref('$files')], env, pre, k)
+        env = {'$state': {}, '$files': lists[0] if f_ is fn else [list(l) for l in lists]}
+        ex.top(f_, [Ref('$files')], env, pre, k)
         res.absorb(ex)
         res.panic_paths += len([p for p in ex.panics])
         for pc, msg, where in ex.panics:
-            res.violations.append({'label': 'panic path: ' + msg[:80], 'n': n, 'replay': None})
+            res.violations.append({'label': 'panic path: ' + msg[:80], 'shape': list(shape), 'replay': None})
     res.wall_s = time.time() - t0
     if res.violations: res.status = 'violation'
     return res
@@ -78,12 +91,13 @@ def _native_key(s):
 
 
 def o7_1_confirm(v, out):
+    """Native: the real get_key_range_for_files on the model's files (the files of both lists together - the two functions agree on a flat list)."""
     if out.get('_rc') != 0: return (False, 'native run failed: %s' % out.get('_stderr', '')[-200:])
     files = _parse_files(v['replay'][1:])
-    exp_s = min((f[0] for f in files), key=_kcmp_key); exp_e = max((f[1] for f in files), key=_kcmp_key)
+    exp_s = min((f[0] for f in files), key=_kcmp_key); max_u = max(f[1][0] for f in files)
     got_s, got_e = _native_key(out['start']), _native_key(out['end'])
-    bad = (got_s != exp_s) or (got_e != exp_e)
-    return (bad, 'native range %s..%s, hull %s..%s' % (got_s, got_e, exp_s, exp_e))
+    bad = (got_s != exp_s) or got_e[0] != max_u or got_e not in [f[1] for f in files]
+    return (bad, 'native range %s..%s; smallest key %s, largest user key %04x' % (got_s, got_e, exp_s, max_u))
 
 
 def o7_1_witness_ok(w, out):
